@@ -53,20 +53,30 @@ def expected_steps(start, end, dt):
     return adm
 
 
-def tempo_times(start, end, dt, calls=None):
+def tempo_times(start, end, dt, mid=None):
+    """mid: an earlier target computed first (a continued computation must cover the same grid)"""
     par = oqupy.TempoParameters(dt=dt, epsrel=1e-3, dkmax=1)
     t = oqupy.Tempo(_sys, _bath, par, _rho, start)
+    if mid is not None:
+        t.compute(mid, progress_type="silent")
     t.compute(end, progress_type="silent")
     return list(t.get_dynamics().times)
 
 
-def mf_times(start, end, dt):
+def mf_times(start, end, dt, mid=None):
     par = oqupy.TempoParameters(dt=dt, epsrel=1e-3, dkmax=1)
     s = oqupy.TimeDependentSystemWithField(lambda t, a: 0.0 * oqupy.operators.sigma("x"))
     mfs = oqupy.MeanFieldSystem([s], field_eom=lambda t, states, a: 0.0)
     t = oqupy.MeanFieldTempo(mfs, [_bath], par, [_rho], 0.0 + 0j, start)
+    if mid is not None:
+        t.compute(mid, progress_type="silent")
     t.compute(end, progress_type="silent")
-    return list(t.get_dynamics().times)
+    d = t.get_dynamics()
+    times = list(d.times)
+    # the per-system dynamics and the fields carry the same grid
+    if list(d.system_dynamics[0].times) != times or len(d.fields) != len(times):
+        return times + ["system/field times differ"]
+    return times
 
 
 def pt_len(start, end, dt):
@@ -121,11 +131,16 @@ def run(chk):
         adm = expected_steps(start, end, dt)
         m_info = {"driver": driver, "start": sts, "dt": dts, "end": repr(end), "kind": kind, "m": m}
         try:
+            # a third of the runs reach the end time in two compute calls (the first to an earlier grid point)
+            mid = None
+            if m >= 2 and kind in ("literal", "computed") and rng.random() < 0.35:
+                mid = float(lit_sum(sts, dts, rng.randint(1, m - 1)))
+                m_info["continued_from"] = repr(mid)
             if driver == "tempo":
-                times = quiet(tempo_times, start, end, dt)
+                times = quiet(tempo_times, start, end, dt, mid)
                 n = len(times) - 1
             elif driver == "meanfield":
-                times = quiet(mf_times, start, end, dt)
+                times = quiet(mf_times, start, end, dt, mid)
                 n = len(times) - 1
             else:
                 if min(adm) < 2:
